@@ -24,6 +24,9 @@ def family(ctx):
     # the failure is the branch limit, reached in the third iteration only (a resumed run must be held to the same limit)
     out += [f"cfg maxbr={m} x=1 | T0: spawn 1; ld 0 rlx; ifeq 1 v:1 3; ld 0 rlx; ld 0 rlx; ld 0 rlx; join 1 | T1: st 0 1 rlx"
             for m in (9, 10, 11, 12, 13)]
+    # SeqCst fences (the global fence clock): a resumed run starts from a fresh execution
+    out += ["cfg x=2 | T0: spawn 1; st 0 1 rlx; fence sc; ld 1 rlx; join 1 | T1: st 1 1 rlx; fence sc; ld 0 rlx",
+            "cfg x=2 | T0: spawn 1; st 0 1 rlx; st 1 1 rlx; join 1; fence sc | T1: fence sc; ld 1 rlx; ld 0 rlx"]
     out += TLS
     return list(dict.fromkeys(out))
 
